@@ -216,3 +216,312 @@ def r_simple_key_settled(ctx, repo):
     if n_tok < 5 or n_dec < 1:
         raise AnalysisError('R-SIMPLE-KEY-SETTLED: only %d candidate-ending tokens and %d level decrements found' % (n_tok, n_dec))
     return rule
+
+
+# --------------------------------------------------------------------------------------- R-MERGE-LIST-ENTRIES-MAPPINGS
+def r_merge_list_entries(ctx, repo):
+    """YAML 1.1 merge key: the value is a mapping or a *sequence of mappings*.  Decided on the CFG of flatten_mapping (helpers
+    inlined): inside every loop over the entries of another node's value list, an entry that is a sequence or a scalar leads
+    to a raise on every path - it never reaches the next iteration or the end of the function."""
+    from .rules_r6 import _flatten
+    rule = ctx.rule('R-MERGE-LIST-ENTRIES-MAPPINGS', 'in flatten_mapping an entry of a merge list that is not a mapping (a nested list, a '
+                                                     'scalar) always ends in ConstructorError')
+    f = _flatten(repo)
+    cfg = CFG(f.node)
+    node_param = f.params[1]
+    loops = []
+    for t in cfg.nodes:
+        if t.kind != 'for' or not isinstance(t.stmt.target, ast.Name):
+            continue
+        if any(isinstance(x, ast.Attribute) and x.attr == 'value' and isinstance(x.value, ast.Name) and x.value.id != node_param
+               for x in ast.walk(t.ast)):
+            loops.append(t)
+    # outermost only
+    outer = [t for t in loops if not any(o is not t and any(t.stmt is x for x in ast.walk(o.stmt)) for o in loops)]
+    if not outer:
+        # no merge-list loop: then a sequence under `<<` must be rejected altogether (R-MERGE-VALUE-REJECTED covers scalars)
+        raise AnalysisError('flatten_mapping: no loop over the entries of a merge list was found')
+    heads = [n for n in cfg.nodes if n.kind == 'test' and isinstance(n.stmt, ast.While)]
+    bases = {'SequenceNode': {'SequenceNode', 'CollectionNode', 'Node'}, 'ScalarNode': {'ScalarNode', 'Node'}}
+    for t in outer:
+        E = t.stmt.target.id
+        aliases = {E}
+        changed = True
+        while changed:
+            changed = False
+            for x in ast.walk(t.stmt):
+                if isinstance(x, ast.Assign) and len(x.targets) == 1 and isinstance(x.targets[0], ast.Name) \
+                        and isinstance(x.value, ast.Name) and x.value.id in aliases and x.targets[0].id not in aliases:
+                    # a name bound only to the entry
+                    nm = x.targets[0].id
+                    others = [y for y in ast.walk(f.node) if isinstance(y, ast.Assign) and any(isinstance(tg, ast.Name) and tg.id == nm for tg in y.targets)]
+                    if all(isinstance(y.value, ast.Name) and y.value.id in aliases for y in others):
+                        aliases.add(nm)
+                        changed = True
+        for scenario in ('SequenceNode', 'ScalarNode'):
+            def atom(tst, scenario=scenario):
+                if isinstance(tst, ast.Call) and isinstance(tst.func, ast.Name) and tst.func.id == 'isinstance' and len(tst.args) == 2 \
+                        and isinstance(tst.args[0], ast.Name) and tst.args[0].id in aliases:
+                    kinds = {norm(k).split('.')[-1] for k in (tst.args[1].elts if isinstance(tst.args[1], ast.Tuple) else [tst.args[1]])}
+                    return bool(kinds & bases[scenario])
+                if isinstance(tst, ast.Compare) and len(tst.ops) == 1 and isinstance(tst.ops[0], (ast.Eq, ast.NotEq)) \
+                        and isinstance(tst.left, ast.Attribute) and tst.left.attr == 'id' and isinstance(tst.left.value, ast.Name) \
+                        and tst.left.value.id in aliases and A.const_str(tst.comparators[0]) is not None:
+                    want = {'SequenceNode': 'sequence', 'ScalarNode': 'scalar'}[scenario]
+                    eq = A.const_str(tst.comparators[0]) == want
+                    return eq if isinstance(tst.ops[0], ast.Eq) else not eq
+                return None
+            starts = [m for (m, lab) in cfg.succ[t] if lab is True]
+            r = A.cfg_reach_under(cfg, atom, starts=starts, follow_exc=False)
+            leak = t in r or any(x in r for x in cfg.normal_exits()) or any(h in r for h in heads)
+            what = 'a nested sequence' if scenario == 'SequenceNode' else 'a scalar'
+            if leak:
+                rule.fail('%s|entry|%s' % (f.qualname, scenario), f.module.rel, t.lineno, f.qualname, 'for _ in %s' % A.anon_text(t.ast, f.node, 40),
+                          'an entry of a merge list that is %s passes through flatten_mapping without ConstructorError: YAML 1.1 allows '
+                          'only a mapping or a list of mappings under `<<`; what is merged from the malformed value depends on code '
+                          'that was never meant to see it' % what)
+            else:
+                rule.ok(f.loc(t.stmt), '%s as an entry of a merge list always raises' % what)
+    return rule
+
+
+# ------------------------------------------------------------------------------------------ R-METACLASS-OWN-TARGETS
+def r_metaclass_own_targets(ctx, repo):
+    """Defining a YAMLObject subclass customises the loaders / dumper *that class* names.  Decided on the metaclass: every
+    read of .yaml_loader / .yaml_dumper in its methods is a read on the class being created (the first parameter or a plain
+    alias of it) - never on a base, on another class of the hierarchy or on a named class."""
+    rule = ctx.rule('R-METACLASS-OWN-TARGETS', 'the YAMLObject metaclass takes the loaders and the dumper to register on from the class '
+                                               'being created only (cls.yaml_loader, cls.yaml_dumper)')
+    c = repo.modules['__init__'].classes.get('YAMLObjectMetaclass')
+    if c is None:
+        raise AnalysisError('YAMLObjectMetaclass has vanished')
+    n = 0
+    for f in c.methods.values():
+        if not f.params:
+            continue
+        me = {f.params[0]}
+        for x in walk_function(f.node):
+            if isinstance(x, ast.Assign) and isinstance(x.value, ast.Name) and x.value.id in me:
+                me |= {t.id for t in x.targets if isinstance(t, ast.Name)}
+        for x in walk_function(f.node):
+            attr = None
+            base = None
+            if isinstance(x, ast.Attribute) and x.attr in ('yaml_loader', 'yaml_dumper') and isinstance(x.ctx, ast.Load):
+                attr, base = x.attr, x.value
+            elif isinstance(x, ast.Call) and norm(x.func) == 'getattr' and len(x.args) >= 2 \
+                    and A.const_str(x.args[1]) in ('yaml_loader', 'yaml_dumper'):
+                attr, base = A.const_str(x.args[1]), x.args[0]
+            if attr is None:
+                continue
+            n += 1
+            if isinstance(base, ast.Name) and base.id in me:
+                rule.ok(f.loc(x), '%s.%s' % (base.id, attr))
+            else:
+                rule.fail('%s|%s|foreign' % (f.qualname, attr), f.module.rel, x.lineno, f.qualname, A.anon_text(x, f.node, 50),
+                          'the metaclass reads .%s of %s, which is not the class being created: creating a YAMLObject subclass then '
+                          'registers on loaders / dumpers that another class (a base, a sibling) named - a class statement changes '
+                          'the tables of classes it never mentioned' % (attr, norm(base)[:40]))
+    if n < 2:
+        raise AnalysisError('YAMLObjectMetaclass: only %d reads of yaml_loader / yaml_dumper found' % n)
+    return rule
+
+
+# ------------------------------------------------------------------------------------------- O-COMPLEX-TEXT-LOADS
+# The float classes on which comparisons with zero and self-comparisons are constant, with the language of repr() on each
+# (CPython: float_repr_style 'short' - digits '.' digits, or digits ['.' digits] 'e' sign digits; 'inf', 'nan').
+_FIN = r'(?:[0-9]+\.[0-9]+|[0-9]+(?:\.[0-9]+)?e[+-][0-9]+)'
+FLOAT_CLASSES = {
+    'neg': ('-' + _FIN, -1.5), 'nzero': (r'-0\.0', -0.0), 'pzero': (r'0\.0', 0.0), 'pos': (_FIN, 1.5),
+    'pinf': ('inf', float('inf')), 'ninf': ('-inf', float('-inf')), 'nan': ('nan', float('nan')),
+}
+# what complex(<str>) accepts (Python language reference, complex(): floatvalue | [floatvalue] "j" | floatvalue sign
+# [absfloatvalue] "j"), without the optional blanks / parentheses, which only makes the accepted set smaller
+_NUM = r'(?:(?:[0-9]+(?:_[0-9]+)*\.?(?:[0-9]+(?:_[0-9]+)*)?|\.[0-9]+(?:_[0-9]+)*)(?:[eE][+-]?[0-9]+(?:_[0-9]+)*)?)'
+_ABS = r'(?:' + _NUM + r'|[iI][nN][fF](?:[iI][nN][iI][tT][yY])?|[nN][aA][nN])'
+_FLT = r'(?:[+-]?' + _ABS + r')'
+COMPLEX_ACCEPTS = r'^(?:' + _FLT + r'|' + _FLT + r'?[jJ]|[+-][jJ]|' + _FLT + r'[+-]' + _ABS + r'?[jJ])$'
+
+
+class _CxInterp:
+    """abstract interpretation of a representer of complex numbers: the argument is a pair of float classes, conditions on
+    its parts are decided per class, strings are regular expressions built by concatenation."""
+
+    def __init__(self, f, param):
+        self.f, self.param = f, param
+
+    def fval(self, e, env):
+        """float class of an expression, or None"""
+        if isinstance(e, ast.Attribute) and e.attr in ('real', 'imag') and isinstance(e.value, ast.Name):
+            v = env.get(e.value.id)
+            if isinstance(v, tuple) and v[0] == 'cx':
+                return v[1] if e.attr == 'real' else v[2]
+        if isinstance(e, ast.Name):
+            v = env.get(e.id)
+            if isinstance(v, tuple) and v[0] == 'fl':
+                return v[1]
+        return None
+
+    def num(self, e, env):
+        """concrete representative of a numeric expression (a float class or the constant zero), else raises"""
+        c = self.fval(e, env)
+        if c is not None:
+            return FLOAT_CLASSES[c][1]
+        if isinstance(e, ast.Constant) and isinstance(e.value, (int, float)) and not isinstance(e.value, bool) and e.value == 0:
+            return e.value
+        if isinstance(e, ast.UnaryOp) and isinstance(e.op, ast.USub):
+            return -self.num(e.operand, env)
+        raise AnalysisError('%s: numeric expression %s is not a part of the argument or zero' % (self.f.qualname, norm(e)[:40]))
+
+    def cond(self, t, env):
+        if isinstance(t, ast.BoolOp):
+            vals = [self.cond(v, env) for v in t.values]
+            return all(vals) if isinstance(t.op, ast.And) else any(vals)
+        if isinstance(t, ast.UnaryOp) and isinstance(t.op, ast.Not):
+            return not self.cond(t.operand, env)
+        if isinstance(t, ast.Compare):
+            left = self.num(t.left, env)
+            res = True
+            for op, r in zip(t.ops, t.comparators):
+                right = self.num(r, env)
+                fn = {ast.Eq: lambda a, b: a == b, ast.NotEq: lambda a, b: a != b, ast.Lt: lambda a, b: a < b,
+                      ast.LtE: lambda a, b: a <= b, ast.Gt: lambda a, b: a > b, ast.GtE: lambda a, b: a >= b}.get(type(op))
+                if fn is None:
+                    raise AnalysisError('%s: comparison %s not understood' % (self.f.qualname, norm(t)[:50]))
+                res = res and fn(left, right)
+                left = right
+            return res
+        if isinstance(t, ast.Call) and norm(t.func) in ('math.isnan', 'math.isinf', 'math.isfinite') and len(t.args) == 1:
+            import math
+            return getattr(math, norm(t.func).split('.')[1])(self.num(t.args[0], env))
+        c = self.fval(t, env)
+        if c is not None:
+            return bool(FLOAT_CLASSES[c][1])
+        raise AnalysisError('%s: condition %s is not decided by the float classes' % (self.f.qualname, norm(t)[:50]))
+
+    def text(self, e, env):
+        """regular expression of the strings e can evaluate to"""
+        import re as _re
+        if isinstance(e, ast.Constant) and isinstance(e.value, str):
+            return _re.escape(e.value)
+        if isinstance(e, ast.Name):
+            v = env.get(e.id)
+            if isinstance(v, tuple) and v[0] == 're':
+                return v[1]
+            raise AnalysisError('%s: %s is not a string built from the argument' % (self.f.qualname, e.id))
+        if isinstance(e, ast.IfExp):
+            return self.text(e.body if self.cond(e.test, env) else e.orelse, env)
+        if isinstance(e, ast.BinOp) and isinstance(e.op, ast.Add):
+            return self.text(e.left, env) + self.text(e.right, env)
+        if isinstance(e, ast.Call) and norm(e.func) in ('repr', 'str') and len(e.args) == 1:
+            c = self.fval(e.args[0], env)
+            if c is not None:
+                return '(?:' + FLOAT_CLASSES[c][0] + ')'
+            if norm(e.func) == 'str':
+                return self.text(e.args[0], env)
+        if isinstance(e, ast.BinOp) and isinstance(e.op, ast.Mod) and isinstance(e.left, ast.Constant) and isinstance(e.left.value, str):
+            args = list(e.right.elts) if isinstance(e.right, ast.Tuple) else [e.right]
+            out, i, fmt = '', 0, e.left.value
+            k = 0
+            while k < len(fmt):
+                ch = fmt[k]
+                if ch != '%':
+                    out += _re.escape(ch)
+                    k += 1
+                    continue
+                spec = fmt[k + 1] if k + 1 < len(fmt) else ''
+                if spec == '%':
+                    out += '%'
+                elif spec in 'rs' and i < len(args):
+                    a = args[i]
+                    i += 1
+                    c = self.fval(a, env)
+                    if c is not None:
+                        out += '(?:' + FLOAT_CLASSES[c][0] + ')'
+                    elif spec == 's':
+                        out += '(?:' + self.text(a, env) + ')'
+                    else:
+                        raise AnalysisError('%s: %%r of %s' % (self.f.qualname, norm(a)[:30]))
+                else:
+                    raise AnalysisError('%s: format %r not understood' % (self.f.qualname, fmt))
+                k += 2
+            if i != len(args):
+                raise AnalysisError('%s: format %r and its arguments do not match' % (self.f.qualname, fmt))
+            return out
+        raise AnalysisError('%s: string expression %s not understood' % (self.f.qualname, norm(e)[:50]))
+
+    def run(self, stmts, env):
+        """-> ('ret', regex, tag) or ('next', env)"""
+        for st in stmts:
+            if isinstance(st, ast.If):
+                r = self.run(st.body if self.cond(st.test, env) else st.orelse, env)
+                if r[0] == 'ret':
+                    return r
+                env = r[1]
+            elif isinstance(st, ast.Assign) and len(st.targets) == 1 and isinstance(st.targets[0], ast.Name):
+                env = dict(env)
+                c = self.fval(st.value, env)
+                if c is not None:
+                    env[st.targets[0].id] = ('fl', c)
+                else:
+                    env[st.targets[0].id] = ('re', self.text(st.value, env))
+            elif isinstance(st, ast.Return) and isinstance(st.value, ast.Call) and isinstance(st.value.func, ast.Attribute) \
+                    and st.value.func.attr == 'represent_scalar' and len(st.value.args) >= 2:
+                return ('ret', self.text(st.value.args[1], env), A.const_str(st.value.args[0]))
+            elif isinstance(st, (ast.Pass, ast.Expr)) and (isinstance(st, ast.Pass) or isinstance(st.value, ast.Constant)):
+                continue
+            else:
+                raise AnalysisError('%s: statement not understood: %s' % (self.f.qualname, norm(st).split('\n')[0][:60]))
+        return ('next', env)
+
+
+def r_complex_text_loads(ctx, repo):
+    from . import relang as RL
+    rule = ctx.rule('O-COMPLEX-TEXT-LOADS', 'for every combination of float classes (negative, -0.0, 0.0, positive, inf, -inf, nan) of the '
+                                            'real and imaginary part, the text represent_complex writes lies in the language complex() '
+                                            'accepts - the constructor of !!python/complex applies complex() to the scalar text')
+    rep = _method(repo, 'representer.Representer', 'represent_complex')
+    con = _method(repo, 'constructor.FullConstructor', 'construct_python_complex')
+    # reader side: complex(<the scalar text, unchanged>)
+    rets = [r for r in walk_function(con.node) if isinstance(r, ast.Return)]
+    ok_reader = len(rets) == 1 and isinstance(rets[0].value, ast.Call) and norm(rets[0].value.func) == 'complex' \
+        and len(rets[0].value.args) == 1
+    if ok_reader:
+        a = rets[0].value.args[0]
+        if isinstance(a, ast.Name):
+            defs = [x.value for x in walk_function(con.node) if isinstance(x, ast.Assign)
+                    and any(isinstance(t, ast.Name) and t.id == a.id for t in x.targets)]
+            a = defs[0] if len(defs) == 1 else a
+        ok_reader = isinstance(a, ast.Call) and isinstance(a.func, ast.Attribute) and a.func.attr == 'construct_scalar'
+    if not ok_reader:
+        raise AnalysisError('construct_python_complex is no longer complex(self.construct_scalar(node)): the accepted language is not known')
+    if len(rep.params) < 2:
+        raise AnalysisError('represent_complex: no data parameter')
+    interp = _CxInterp(rep, rep.params[1])
+    pts = RL.points_of(COMPLEX_ACCEPTS)
+    results = []
+    for rc in FLOAT_CLASSES:
+        for ic in FLOAT_CLASSES:
+            r = interp.run(rep.node.body, {rep.params[1]: ('cx', rc, ic)})
+            if r[0] != 'ret':
+                raise AnalysisError('represent_complex: no represent_scalar(...) result for real=%s imag=%s' % (rc, ic))
+            pat = '^' + r[1] + '$'
+            pts |= RL.points_of(pat)
+            results.append((rc, ic, pat, r[2]))
+    alpha = RL.Alphabet(pts)
+    accepts = RL.compile_regex(alpha, COMPLEX_ACCEPTS)
+    for rc, ic, pat, tag in results:
+        d = RL.compile_regex(alpha, pat)
+        inc, w = RL.included(d, accepts)
+        if inc:
+            rule.ok('%s:%d' % (rep.module.rel, rep.node.lineno), 'real %s, imag %s: text accepted by complex()' % (rc, ic))
+        else:
+            rule.fail('%s|%s|%s' % (rep.qualname, rc, ic), rep.module.rel, rep.node.lineno, rep.qualname, 'represent_complex',
+                      'a complex number whose real part is %s and whose imaginary part is %s is written as %r, which complex() - '
+                      'the constructor of %s - rejects with ValueError: the dumped object cannot be loaded'
+                      % (_cls_words(rc), _cls_words(ic), w, tag), inp='yaml.unsafe_load(yaml.dump(complex(%r, %r)))'
+                      % (FLOAT_CLASSES[rc][1], FLOAT_CLASSES[ic][1]))
+    return rule
+
+
+def _cls_words(c):
+    return {'neg': 'negative', 'nzero': '-0.0', 'pzero': '0.0', 'pos': 'positive', 'pinf': 'inf', 'ninf': '-inf', 'nan': 'nan'}[c]
